@@ -1,35 +1,7 @@
 use super::Walrus;
-use crate::wal::block::Metadata;
-use crate::wal::config::{MAX_ALLOC, PREFIX_META_SIZE};
-
-/// Rejections that depend only on the arguments are decided before anything is marked,
-/// allocated or sealed: an entry that no block can hold, and a topic name whose archived
-/// header does not fit the entry prefix (its size depends on the name only).
-fn check_appendable(col_name: &str, largest_payload: usize) -> std::io::Result<()> {
-    if (PREFIX_META_SIZE as u64).saturating_add(largest_payload as u64) > MAX_ALLOC {
-        return Err(std::io::Error::new(
-            std::io::ErrorKind::InvalidInput,
-            "entry exceeds the largest allocatable block",
-        ));
-    }
-    let probe = Metadata {
-        read_size: 0,
-        owned_by: col_name.to_string(),
-        next_block_start: 0,
-        checksum: 0,
-    };
-    match rkyv::to_bytes::<_, 256>(&probe) {
-        Ok(bytes) if bytes.len() <= PREFIX_META_SIZE - 2 => Ok(()),
-        _ => Err(std::io::Error::new(
-            std::io::ErrorKind::InvalidData,
-            "metadata too large",
-        )),
-    }
-}
 
 impl Walrus {
     pub fn append_for_topic(&self, col_name: &str, raw_bytes: &[u8]) -> std::io::Result<()> {
-        check_appendable(col_name, raw_bytes.len())?;
         self.mark_topic_dirty(col_name);
         let writer = self.get_or_create_writer(col_name)?;
         writer.write(raw_bytes)?;
@@ -38,7 +10,6 @@ impl Walrus {
     }
 
     pub fn batch_append_for_topic(&self, col_name: &str, batch: &[&[u8]]) -> std::io::Result<()> {
-        check_appendable(col_name, batch.iter().map(|d| d.len()).max().unwrap_or(0))?;
         self.mark_topic_dirty(col_name);
         let writer = self.get_or_create_writer(col_name)?;
         writer.batch_write(batch)?;
